@@ -209,6 +209,20 @@ func runC18(t failer, c c18Case) (paths map[string]bool) {
 		if !ok {
 			continue
 		}
+		if p.WithNext && j+1 < len(c.Scripts[i].Pkts) {
+			// the packet that went out in the same write: it is a password if the server's answer to the
+			// packet before it was the password prompt
+			ev.Class("two-packets-of-a-login-in-one-write")
+			if q := c.Scripts[i].Pkts[j+1]; q.Kind == "continue" {
+				if e.FirstStatus == stGetPass && searchable(string(q.Cont.UserMsg)) {
+					tokens[string(q.Cont.UserMsg)] = "ASCII password (sent in one write with the user name)"
+					paths["ascii"] = true
+				} else {
+					elsewhere[string(q.Cont.UserMsg)] = true
+				}
+				elsewhere[string(q.Cont.Data)] = true
+			}
+		}
 		lastStatus[i] = e.Status
 		switch e.Status {
 		case stFail:
@@ -275,6 +289,32 @@ func TestC18EnumSlowPassword(t *testing.T) {
 	}, Order: []int{0, 1, 1, 2, 0, 1}}
 	classifyC18(c, runC18(t, c))
 	ev.Class("real-time-passes-at-the-password-prompt")
+}
+
+// TestC18EnumPipelinedLogin: ASCII logins on a single-connect connection in which the client sends the
+// user name and the password in one write, without waiting for the password prompt; with and without the
+// single-connect flag, next to another login.
+func TestC18EnumPipelinedLogin(t *testing.T) {
+	var w cfggen.World
+	w.Keychain = map[string]string{}
+	w.Cfg.Secrets = []cfggen.Secret{cfggen.NewSecret(cfggen.ScopeA, cfggen.KeyA, cfggen.PrefixA), cfggen.NewSecret(cfggen.ScopeB, cfggen.KeyB, cfggen.PrefixB)}
+	w.Cfg.Users = []cfggen.User{{Name: "alice", Scopes: []string{cfggen.ScopeA, cfggen.ScopeB}, Authenticator: cfggen.BcryptAuth("pw-alpha"), Accounter: cfggen.FileAccounter()}}
+	start := func(user string) authPkt {
+		return authPkt{Kind: "start", Start: &model.AuthenStart{Action: 1, Priv: 1, AType: 1, Service: 1, User: model.B(user), Port: model.B("tty0"), RemAddr: model.B("r")}}
+	}
+	for round := 0; round < 30; round++ {
+		for _, hflags := range []byte{4, 0} {
+			for _, user := range []string{"alice", "mallory"} {
+				name := cont(user, 0)
+				name.WithNext = true
+				c := c18Case{World: w, Scope: cfggen.ScopeA, Key: "K3yP1pel1nedL0g1nC4se", Level: 30, Scripts: []authScript{
+					{Flavour: "ascii-user-in-continue", Session: 0x2000, HFlags: hflags, Pkts: []authPkt{start(""), name, cont(fmt.Sprintf("T0kP1pel1nedPassw0rd%dx%d", round, hflags), 0)}},
+					{Flavour: "ascii-wrong", Session: 0x2001, HFlags: hflags, Pkts: []authPkt{start("alice"), cont("T0k0therL0g1nPassw0rd", 0)}},
+				}, Order: []int{0, 1, 0, 1}}
+				classifyC18(c, runC18(t, c))
+			}
+		}
+	}
 }
 
 func TestC18Regress(t *testing.T) {
